@@ -19,7 +19,10 @@ write; same / touched (sha256 + size + inode + mtime + link target) of every fil
 directory (the file that was opened for appending: `open`).
 
 Oracle (independent of the model): structural fingerprint (harness/fingerprint.py + compression
-state and count/index/list variables) of every input before and after the write; every file
+state + netCDF variable / dimension / sample-dimension names and properties of the count, index, list,
+tie point index, interpolation parameter, node count, part node count and interior ring variables) of
+every input before and after the write, and the same without array values for copies of the inputs
+taken before the write and for every other register of the history; every file
 still needed by an input is byte-identical after the write, whatever the mode and the outcome;
 overwrite=False (mode w) leaves an existing file byte-identical; the interpreter survives.
 
@@ -54,6 +57,8 @@ REQUIRED = [
     "C10_other_files_untouched",
     "C10_inputs_unchanged",
     "C10_shared_copy_counterexample",
+    "C10_inputs_unchanged_parts",
+    "C10_shared_list_variable_counterexample",
     "C10_old_guard_sound_partial",
     "C10_old_transplant_counterexample",
     "C10_old_symlink_counterexample",
@@ -67,7 +72,10 @@ RULE = (
     "histories of 0-8 operations (drawn by trying them on the real objects, so every recorded operation succeeds) over "
     "registers r0 = read(X)[i] (X spelled absolute / relative / ~ / through a symbolic link), r1 = read(Y)[j], "
     "r2 = read(M)[i] and an in-memory twin; seeds: example fields 0-7, ragged contiguous / indexed / indexed contiguous, "
-    "gathered, geometry and interior-ring test files, random fields; then one write of 1-3 items (registers or their "
+    "gathered, geometry and interior-ring test files, random fields, Field.compress('contiguous'|'indexed'|"
+    "'indexed_contiguous') results and gathered fields built in memory (cfdm.GatheredArray + cfdm.List) whose count / "
+    "index / list variables have no netCDF name or one that is taken in the output (another item's, a coordinate's, the "
+    "field's own); then one write of 1-3 items (registers or their "
     ".domain view) to X, Y, Z (existing, unrelated), W (absent), L (symbolic link to X or Z) or M, mode w/a/r+, "
     "overwrite on/off, option sets, external file, injected failures.  non-trivial = some written item still needs a "
     "file; distinct = distinct (seeds, history, write request)"
@@ -148,6 +156,8 @@ def pre():
         seed_path(dict(kind="example", i=i))
     for n in CTF:
         seed_path(dict(kind="ctf", name=n))
+    for sd in COMP_SEEDS + GATH_SEEDS:
+        seed_path(sd)
 
 
 def ctf_funcs():
@@ -180,7 +190,38 @@ def seed_field(seed):
     if seed["kind"] == "random":
         import random
         return GF.random_field(random.Random(seed["s"]), max_axes=3)
+    if seed["kind"] == "compress":
+        # Field.compress: the count / index variables it creates have no netCDF names
+        return C.example_field(seed["i"]).compress(seed["method"])
+    if seed["kind"] == "gathered":
+        return gathered_field(seed.get("list"))
     return None
+
+
+def gathered_field(list_ncvar):
+    """A field compressed by gathering, built in memory (cfdm.GatheredArray + cfdm.List); the list
+    variable has no netCDF name, or one that is / may be taken in the output (`lat` is the latitude
+    coordinate's variable and dimension, `pr` the field's own variable)."""
+    C = cfdm()
+    compressed = np.array([[280.0, 282.5, 281.0], [279.0, 278.0, 277.5]])
+    f = C.Field(properties={"standard_name": "precipitation_flux", "units": "kg m-2 s-1"})
+    f.nc_set_variable("pr")
+    T = f.set_construct(C.DomainAxis(2))
+    Y = f.set_construct(C.DomainAxis(3))
+    X = f.set_construct(C.DomainAxis(2))
+    for ax, name, nc, vals, units in ((T, "time", "time", [0.0, 1.0], "days since 2000-01-01"),
+                                      (Y, "latitude", "lat", [-30.0, 0.0, 30.0], "degrees_north"),
+                                      (X, "longitude", "lon", [10.0, 20.0], "degrees_east")):
+        c = C.DimensionCoordinate(properties={"standard_name": name, "units": units}, data=C.Data(vals))
+        c.nc_set_variable(nc)
+        f.set_construct(c, axes=[ax])
+    lv = C.List(properties={"long_name": "land points"}, data=C.Data(np.array([1, 4, 5])))
+    if list_ncvar:
+        lv.nc_set_variable(list_ncvar)
+    arr = C.GatheredArray(compressed_array=C.Data(compressed), compressed_dimensions={1: (1, 2)}, shape=(2, 3, 2),
+                          list_variable=lv)
+    f.set_data(C.Data(arr), axes=[T, Y, X])
+    return f
 
 
 def seed_path(seed):
@@ -714,6 +755,86 @@ def entry(path):
 
 
 # --------------------------------------------------------------------------- extended fingerprint of an input
+def _nn(v):
+    """netCDF names + properties of a variable-like component."""
+    if v is None:
+        return None
+    return dict(nc=FP.nc_names(v), props=FP.fp_props(v), cls=type(v).__name__)
+
+
+def data_names(d):
+    """Compression state of a Data and the netCDF names of every variable nested in it."""
+    if d is None:
+        return None
+    # (nothing here may open a file: registers that are not being written may have lost theirs)
+    out = dict(ct=d.get_compression_type(), nc=FP.nc_names(d))
+    for nm in ("count", "index", "list"):
+        try:
+            v = getattr(d, "get_" + nm)(None)
+        except Exception:
+            v = None
+        if v is not None:
+            out[nm] = _nn(v)
+            out[nm]["data"] = dict(nc=FP.nc_names(v.get_data(None))) if v.get_data(None) is not None else None
+    for nm in ("tie_point_indices", "interpolation_parameters", "dependent_tie_points"):
+        try:
+            vs = getattr(d, "get_" + nm)({})
+        except Exception:
+            vs = {}
+        if vs:
+            out[nm] = {str(k): _nn(v) for k, v in sorted(vs.items(), key=lambda kv: str(kv[0]))}
+    try:
+        out["cdim"] = d.get_compressed_dimension(None)
+        out["caxes"] = list(d.get_compressed_axes())
+    except Exception:
+        pass
+    return out
+
+
+def fp_names(x):
+    """Everything about an object except array values: properties, netCDF names of the object, its
+    domain axes, constructs, bounds, interior rings, node count / part node count variables, and of the
+    count / index / list / tie point index / interpolation parameter variables nested in any data."""
+    out = dict(top=_nn(x))
+    if hasattr(x, "get_data"):
+        out["data"] = data_names(x.get_data(None))
+    try:
+        out["globals"] = sorted((k, repr(v)) for k, v in x.nc_global_attributes().items())
+    except Exception:
+        pass
+    cons = {}
+    for k, c in sorted(x.constructs.todict().items()):
+        e = _nn(c)
+        if hasattr(c, "get_size"):
+            e["size"] = c.get_size(None)
+        if hasattr(c, "get_data"):
+            e["data"] = data_names(c.get_data(None))
+        if hasattr(c, "get_bounds") and c.get_bounds(None) is not None:
+            b = c.get_bounds()
+            e["bounds"] = _nn(b)
+            e["bounds"]["data"] = data_names(b.get_data(None))
+        for g in ("get_interior_ring", "get_node_count", "get_part_node_count"):
+            fn = getattr(c, g, None)
+            if fn is not None:
+                v = fn(None)
+                if v is not None:
+                    e[g[4:]] = _nn(v)
+                    if hasattr(v, "get_data"):
+                        e[g[4:]]["data"] = data_names(v.get_data(None))
+        if hasattr(c, "nc_get_external"):
+            e["ext"] = c.nc_get_external()
+        cons[k] = e
+    out["cons"] = cons
+    return json.dumps(out, sort_keys=True, default=str)
+
+
+def safe_names(x):
+    try:
+        return fp_names(x)
+    except Exception as e:
+        return "unreadable:" + type(e).__name__
+
+
 def fp_input(x):
     out = {}
 
@@ -750,7 +871,7 @@ def fp_input(x):
         pass
     out["need"] = sorted(true_need(x))
     out["orig"] = sorted(x.get_original_filenames())
-    return FP.fp_str(x) + json.dumps(out, sort_keys=True, default=str)
+    return FP.fp_str(x) + json.dumps(out, sort_keys=True, default=str) + fp_names(x)
 
 
 def safe_fp(x):
@@ -812,24 +933,38 @@ CTF_SEEDS = [dict(kind="ctf", name=n) for n in CTF]
 
 
 def plain(seed):
+    """No discrete sampling geometry / compression: appends, domain views and format options apply."""
+    return seed["kind"] in ("example", "random")
+
+
+def has_twin(seed):
     return seed["kind"] != "ctf"
+
+
+COMP_SEEDS = [dict(kind="compress", i=3, method="contiguous"), dict(kind="compress", i=3, method="indexed"),
+              dict(kind="compress", i=4, method="indexed_contiguous")]
+GATH_SEEDS = [dict(kind="gathered", list=x) for x in (None, None, "list", "landpoint", "lat", "pr")]
 
 
 def gen_payload(rng):
     r = rng.random()
-    if r < 0.55:
+    if r < 0.45:
         seed = rng.choice(EX_SEEDS[:3] + EX_SEEDS)
-    elif r < 0.8:
+    elif r < 0.62:
         seed = rng.choice(CTF_SEEDS)
+    elif r < 0.82:
+        seed = rng.choice(GATH_SEEDS + COMP_SEEDS)
     else:
         seed = dict(kind="random", s=rng.randrange(10 ** 6))
         if seed_path(seed) is None:
             seed = EX_SEEDS[0]
     seedY = rng.choice([seed, seed, rng.choice(EX_SEEDS)])
+    if seed["kind"] == "gathered" and rng.random() < 0.5:
+        seedY = rng.choice(GATH_SEEDS)          # another gathered field: list variable names clash
     link = rng.choice([None, None, 0, 0, 2])
     readvia = rng.choice(["abs", "abs", "abs", "rel", "tilde", "link", "link"])
     return dict(seed=seed, seedY=seedY, ix=rng.randrange(4), iy=rng.randrange(4), link=link, readvia=readvia,
-                twin=rng.random() < 0.7)
+                twin=rng.random() < (0.9 if seed["kind"] in ("gathered", "compress") else 0.7))
 
 
 def gen_write(rng, env, payload):
@@ -842,6 +977,11 @@ def gen_write(rng, env, payload):
         r = rng.randrange(n) if rng.random() < 0.5 else n - 1
         dom = hasattr(regs[r], "get_data") and rng.random() < 0.12 and allplain
         items.append(f"{r}{'d' if dom else ''}")
+    if payload["seed"]["kind"] in ("gathered", "compress") and payload.get("twin", True) and rng.random() < 0.7:
+        # the in-memory twin (count / index / list variables without netCDF names, or with names that are
+        # taken), alone or together with fields whose variables want the same names
+        items = rng.choice([["3"], ["3"], ["3", "0"], ["0", "3"], ["1", "3"], ["3", str(n - 1)], [str(n - 1), "3"]])
+        nitems = len(items)
     # aim at a file that some item still needs, most of the time
     needed = set()
     for it in items:
@@ -1074,6 +1214,10 @@ def impl(c):
             items[int(p["fault"].split(":")[1])].set_property("c10_unwritable", {"a": 1})
         # -------- before
         fp0 = [safe_fp(x) for x in items]
+        # copies of the items taken before the write, and every register of the history (earlier
+        # copies, sources and derivatives of the items): none of them may change either
+        others = [x.copy() for x in items] + list(regs)
+        oth0 = [safe_names(x) for x in others]
         needed = set()
         for x in items:
             needed |= env.names(true_need(x))
@@ -1095,7 +1239,7 @@ def impl(c):
                 out = "raised:" + ("fault" if isinstance(e, InjectedFault) else fw.exc_enum(e))
                 e = None
             gc.collect()
-            return out, [safe_fp(x) for x in items]
+            return out, [safe_fp(x) for x in items], [safe_names(x) for x in others]
 
         # always in a child process: a write that re-opens a file which is open for writing (every
         # defect this property is about leads there) can take the interpreter down, and a dead pool
@@ -1118,11 +1262,11 @@ def impl(c):
                 txt = fh.read()
             os.waitpid(pid, 0)
             if txt:
-                outcome, fp1 = json.loads(txt)
+                outcome, fp1, oth1 = json.loads(txt)
             else:
-                outcome, fp1 = "crashed", None
+                outcome, fp1, oth1 = "crashed", None, None
         else:
-            outcome, fp1 = do_write()
+            outcome, fp1, oth1 = do_write()
         # -------- after
         e1 = {n: entry(env.path[n]) for n in names}
         states = []
@@ -1133,8 +1277,9 @@ def impl(c):
                 states.append(f"{n}=" + ("same" if e0[n] == e1[n] else "touched"))  # bytes and directory entry
         if fp1 is None:
             fp1 = ["unreadable:crashed"] * len(items)
-        fp1 = [safe_fp(x) for x in items]
+            oth1 = ["unreadable:crashed"] * len(others)
         changed = [i for i, (a, b) in enumerate(zip(fp0, fp1)) if a != b]
+        ochanged = [i for i, (a, b) in enumerate(zip(oth0, oth1)) if a != b]
         diff = ""
         if changed:
             i = changed[0]
@@ -1144,11 +1289,31 @@ def impl(c):
                     FP.diff(json.loads(a[:a.index("}{") + 1]), json.loads(b[:b.index("}{") + 1]))) or "compression/names/need differ")
             except Exception:
                 diff = f"item {i} differs"
-        O = dict(inputs_same=not changed, diff=diff[:300], needed=needed_real, same={str(n): e0[n][0] == e1[n][0] for n in names},
+        if not diff and changed:
+            diff = f"item {changed[0]} differs"
+        odiff = ""
+        if ochanged:
+            i = ochanged[0]
+            who = f"copy of item {i} taken before the write" if i < len(items) else f"register {i - len(items)}"
+            odiff = who + ": " + _json_diff(oth0[i], oth1[i])
+        if changed and "differ" in diff:
+            i = changed[0]
+            try:
+                diff = f"item {i}: " + _json_diff(fp0[i][fp0[i].rindex('{"cons"'):], fp1[i][fp1[i].rindex('{"cons"'):])
+            except Exception:
+                pass
+        O = dict(others_same=not ochanged, odiff=odiff[:300], inputs_same=not changed, diff=diff[:300], needed=needed_real, same={str(n): e0[n][0] == e1[n][0] for n in names},
                  existed=existed, treal=treal, outcome=outcome)
         return ";".join(obs) + "|" + outcome + "|" + ",".join(states) + "@@" + json.dumps(O, sort_keys=True)
     finally:
         env.close()
+
+
+def _json_diff(a, b):
+    try:
+        return "; ".join(FP.diff(json.loads(a), json.loads(b))) or "differs"
+    except Exception:
+        return (b if str(b).startswith("unreadable") else "differs")
 
 
 def split_impl(s):
@@ -1225,6 +1390,8 @@ def oracle(c):
         return None
     if not O["inputs_same"]:
         msgs.append("the write changed (or made unreadable) a construct passed to it: " + O["diff"])
+    if not O.get("others_same", True):
+        msgs.append("the write changed an earlier copy / another construct of the history (shared component): " + O["odiff"])
     mode_w = p["mode"] == "w"
     if O["outcome"] == "crashed":
         msgs.append("the interpreter crashed (fatal signal) during the write")
@@ -1268,7 +1435,7 @@ def _unexplained(c, O):
     if p["mode"] == "w" and not p["ow"] and O["existed"] and \
             (not O["same"].get(str(O["treal"]), True) or O["outcome"] == "ok"):
         return "unexplained:overwrite-false-altered"
-    if not O["inputs_same"]:
+    if not O["inputs_same"] or not O.get("others_same", True):
         return "unexplained:inputs-changed"
     return None
 
@@ -1317,7 +1484,7 @@ def _renumber(ops, drop, nbase):
 
 
 def _variants(p):
-    nbase = 4 if (p.get("twin", True) and plain(p["seed"])) else 3
+    nbase = 4 if (p.get("twin", True) and has_twin(p["seed"])) else 3
     for i in range(len(p["ops"])):
         ops, mapping, dead = _renumber(p["ops"], i, nbase)
         items = []
